@@ -7,6 +7,7 @@ import AdaVerif.Lemmas.Protocol
 import AdaVerif.Lemmas.HostSetter
 import AdaVerif.Lemmas.AggHostSetter
 import AdaVerif.Props.C10
+import AdaVerif.Lemmas.ParseBase
 /-
 C03 — Setters implement the Standard's API setters and fail atomically.
 
@@ -298,6 +299,33 @@ theorem url_set_host_end_to_end_partial (hn : Bool) (idna : Idna) (L ty : Nat) (
     (setHostR hn idna L ty ((defaultPort u.scheme).getD 0) (recOf u) v).1 =
       if getHrefSize (recOf (setHostGeneric hn idna u v)) ≤ L then recOf (setHostGeneric hn idna u v) else recOf u :=
   setHostR_eq hn idna L ty u v hty hid hclean
+
+open AdaVerif.Model.ParseSpecial AdaVerif.Model.UrlRec AdaVerif.Lemmas.UR in
+/-- **`url::set_href`, end to end**: parse (the whole state machine of C01, no base), size checks, take-over - the object
+    holding `u` becomes the object holding the Standard's href-setter result when the value and the normalized href fit the
+    limit, and stays untouched otherwise (same side condition and IDNA parameter as `Props.C01.parser_no_base_partial`) -/
+theorem url_set_href_end_to_end_partial (idna : Idna) (L : Nat) (u : Url) (v : Bytes) (hid : ∀ d, AdaVerif.Lemmas.HP.IdnaAt idna d)
+    (hclean : AdaVerif.Lemmas.HS.bracketClean (schemeSpecial v) false (hostStart v) = true) :
+    setHrefR idna L (recOf u) v =
+      match parse idna v none with
+      | some n => if v.length ≤ L ∧ getHrefSize (recOf n) ≤ L then (recOf n, true) else (recOf u, false)
+      | none => (recOf u, false) :=
+  AdaVerif.Lemmas.PB.setHrefR_eq idna L u v hid hclean
+
+open AdaVerif.Model.ParseSpecial AdaVerif.Model.UrlRec AdaVerif.Lemmas.UR in
+/-- … which is `Spec.setHref` when nothing is refused for size -/
+theorem url_set_href_is_setHref (idna : Idna) (u : Url) (v : Bytes) (L : Nat) (hid : ∀ d, AdaVerif.Lemmas.HP.IdnaAt idna d)
+    (hclean : AdaVerif.Lemmas.HS.bracketClean (schemeSpecial v) false (hostStart v) = true)
+    (hfit : v.length ≤ L ∧ getHrefSize (recOf (setHref idna u v)) ≤ L) :
+    (setHrefR idna L (recOf u) v).1 = recOf (setHref idna u v) := by
+  rw [url_set_href_end_to_end_partial idna L u v hid hclean]
+  unfold setHref at hfit ⊢
+  cases hp : parse idna v none with
+  | none => rfl
+  | some n =>
+    rw [hp] at hfit
+    simp only at hfit ⊢
+    simp [hfit]
 
 open AdaVerif.Model.Agg AdaVerif.Lemmas.AggL in
 /-- **`url_aggregator::set_host` / `set_hostname`, end to end** (`Model/AggHostSetter.lean`, on the editor layer of C07:
